@@ -109,7 +109,7 @@ def run(ctx):
     exp2 = [s for s in v2 if s["name"] in (("B", "G") if quick else ("A", "B", "C", "G", "H", "I", "J", "K", "Lq", "M"))]
     f2e = os.path.join(ctx.work, "scn_v2e.json"); json.dump(exp2, open(f2e, "w"))
     live1 = [s for s in v1 if s["name"] in (("A", "B") if quick else ("A", "B", "C", "D", "F"))]
-    live2 = [s for s in v2 if s["name"] in (("G",) if quick else ("A", "B", "G", "I", "J", "K"))]
+    live2 = [s for s in v2 if s["name"] in (("G",) if quick else ("B", "G", "J", "K"))]
     fl1 = os.path.join(ctx.work, "scn_l1.json"); json.dump(live1, open(fl1, "w"))
     fl2 = os.path.join(ctx.work, "scn_l2.json"); json.dump(live2, open(fl2, "w"))
     e1 = os.path.join(ctx.work, "edges_v1.ndjson")
@@ -245,6 +245,15 @@ def run(ctx):
                     dl[d["x"]] = d
                 except Exception:
                     pass
+        parts, npart = {}, 0
+        if os.path.exists(lp + ".partial"):
+            for ln in open(lp + ".partial"):
+                try:
+                    evs = json.loads(ln)["events"]
+                    if evs:
+                        parts[evs[0].get("x")] = evs
+                except Exception:
+                    pass
         for d in deaths:
             unit = d["x"]
             if d["event"] == "Deadlock":
@@ -259,6 +268,24 @@ def run(ctx):
                                         "v%s async_mutex, scenario %s, receiver scheduler %s, %s mode"
                                         % (cause, sc.get("ver"), sc.get("name"), SCHED_NAME.get(sc.get("sched")), mode)))
             else:
+                # the events recorded before the death must still be acceptable to the monitor (safety clauses only)
+                part = parts.get(unit)
+                if part and npart < 3:
+                    npart += 1
+                    pp = os.path.join(ctx.work, "partial_%s_%s.ndjson" % (mode, unit))
+                    with open(pp, "w") as f:
+                        for e in part:
+                            f.write(json.dumps(e) + "\n")
+                    vr = vlib.validate_trace(ctx, "sync", "MutexMon", pp)
+                    if vr["prefix"] < vr["total"]:
+                        sc = scnmap.get(part[0].get("scn")) or {}
+                        rep.violation(dict(engine="mutex", mode=mode, event="MonitorReject", unit=unit, k=part[0].get("k"), ver=sc.get("ver"),
+                                           sched=SCHED_NAME.get(sc.get("sched")), cause="safety-clause-before-%s" % d["event"], scenario=sc,
+                                           what="MutexMon rejects event %d of the %d events recorded before a %s in %s mode (v%s async_mutex, "
+                                                "scenario %s, scheduler %s): %s" % (vr["prefix"] + 1, vr["total"], d["event"], mode, sc.get("ver"),
+                                                                                   sc.get("name"), SCHED_NAME.get(sc.get("sched")),
+                                                                                   json.dumps(part[vr["prefix"]]) if vr["prefix"] < len(part) else ""),
+                                           events=part, death=d.get("frame") or d.get("stderr_tail", "")[-300:]))
                 rep.oos.append(dict(kind=d["event"], mode=mode, unit=unit, asan=d.get("asan"), frame=d.get("frame"), where=d.get("where"),
                                     access=d.get("access"), what="memory/crash event in the C15 engine (not a C15 clause): %s %s %s"
                                                                  % (d["event"], d.get("asan", ""), d.get("frame", "")),
